@@ -366,6 +366,10 @@ func (p *Parser) parseSelect(stmt *SelectStatement) error {
 
 		var expr strings.Builder
 		parenthesesLevel := 0 // 跟踪括号嵌套层级
+		// a unary minus (at the start, after an operator, a parenthesis, a comma or a keyword) is written
+		// next to its operand: "a > -b", not "a > - b", which the expression validator takes for two operators
+		afterUnaryMinus := false
+		prevType := TokenEOF
 
 		// 设置最大表达式长度，防止无限循环
 		maxExprParts := 100
@@ -442,10 +446,16 @@ func (p *Parser) parseSelect(stmt *SelectStatement) error {
 					}
 				}
 
+				if afterUnaryMinus {
+					shouldAddSpace = false
+				}
+
 				if shouldAddSpace {
 					expr.WriteString(" ")
 				}
 			}
+			afterUnaryMinus = currentToken.Type == TokenMinus && !endsOperand(prevType)
+			prevType = currentToken.Type
 			expr.WriteString(currentToken.Value)
 			currentToken = p.lexer.NextToken()
 		}
@@ -1623,4 +1633,14 @@ func Parse(sql string) (*types.Config, string, error) {
 	}
 
 	return config, condition, nil
+}
+
+// endsOperand reports whether a token of this type can end an operand, so that a '-' after it is the
+// binary operator. After anything else (an operator, '(', ',', a keyword, nothing) the '-' is a sign.
+func endsOperand(t TokenType) bool {
+	switch t {
+	case TokenIdent, TokenQuotedIdent, TokenNumber, TokenString, TokenRParen, TokenRBracket, TokenEND:
+		return true
+	}
+	return false
 }
